@@ -73,6 +73,8 @@ pub struct Bus {
     pub log: Log,
     pub clients: Vec<ClientInfo>,
     pub app_tasks: Vec<(TaskId, String)>,
+    /// the next client's injected failure (`fail_at`) breaks only its sending direction
+    pub half_open_next: bool,
 }
 
 impl Bus {
@@ -96,6 +98,7 @@ impl Bus {
             log: Log::default(),
             clients: Vec::new(),
             app_tasks: Vec::new(),
+            half_open_next: false,
         }
     }
 
@@ -121,7 +124,8 @@ impl Bus {
     ) -> Option<usize> {
         let i = self.clients.len();
         let (broker_end, client_end) = pair(fifo, format!("b{i}"), format!("c{i}"), Some(self.taps.clone()));
-        let client_end = client_end.fail_at(fail_at).rewrite_connect_minor(minor);
+        let client_end = client_end.fail_at(fail_at).send_only(self.half_open_next).rewrite_connect_minor(minor);
+        self.half_open_next = false;
         let broker_end = broker_end.fail_at(fail_broker_end);
 
         let conn_slot: Shared<Option<Result<aldrin_broker::Connection<Tap>, String>>> = shared(None);
